@@ -13,7 +13,7 @@ RULE = ('1-3 stream transfers sharing a manager (uploads from seekable / non-see
         'downloads) no GetObject for part i begins while the lowest part whose body has not reached EOF is L with i-L >= '
         'max_in_memory_download_chunks, and the response data alive inside the library (lifetime-tracked body chunks, sampled at every '
         'body read, incl. runs where later parts are retried while the lowest part is held) <= window parts + pending writes + one '
-        'chunk per request/IO thread; pending destination writes (counting IO executor) <= max_io_queue_size; evaluated on the '
+        'chunk per request/IO thread; pending destination writes (counting IO executor) <= max_io_queue_size and the bytes they hold <= max_io_queue_size x io_chunksize (whole run; short-reads family: response bodies whose reads come back short); evaluated on the '
         'fault/cancel-free prefix of each run; thorough adds real-size (1 MiB chunk) runs with a tracemalloc peak as a coarse '
         'cross-check; also (whole run, incl. after faults/cancels): request-stage tasks holding an in-memory upload body queued-or-running at once <= max_in_memory_upload_chunks, with a trouble-midway family; non-trivial = a stream transfer ran multipart/ranged and a monitor evaluated; distinct = (shape, interleaving '
         'signature)')
@@ -43,6 +43,21 @@ def gen_cases(tier, seed):
             spec['config']['num_download_attempts'] = 3
             spec['plan']['faults'] = [{'at': f't0/s3:GetObject:{C * rng.randrange(0, 3)}#0', 'phase': 'body', 'bytes': rng.randrange(0, C),
                                        'kind': 'connreset', 'tag': 'FAULT-r'}]
+        cases.append(spec)
+    # response bodies whose reads come back short (3 of 4 requested bytes, 5 of 8, ...): what is handed to the IO queue per write must
+    # still be at most io_chunksize, so that max_io_queue_size writes hold at most max_io_queue_size x io_chunksize bytes
+    for i in range(60 if quick else 600):
+        C = 8
+        ioc = rng.choice([4, 8])
+        cfg = dict(multipart_threshold=rng.choice([C, 2 * C, 100]), multipart_chunksize=C, io_chunksize=ioc, max_io_queue_size=rng.choice([1, 1, 2, 3]),
+                   max_request_concurrency=rng.choice([1, 2, 3]), max_in_memory_download_chunks=rng.choice([1, 2, 3]))
+        caps = rng.choice([[[3]], [[5]], [[3], [1, 2]], [[ioc - 1]], [[1, ioc - 1]], [[7, 2]]])
+        n = rng.choice([1, 1, 2])
+        ts = [{'kind': 'download', 'dst': rng.choice(['path', 'seekable', 'nonseekable', 'fifo']), 'size': rng.choice([7, 19, 3 * C, 5 * C + 3])} for _ in range(n)]
+        spec = {'seed': rng.randrange(1 << 30), 'config': cfg, 'transfers': ts, 'family': 'short-reads', 'get_read_caps': caps,
+                'plan': {'delay_p': rng.choice([0.0, 0.3])}}
+        if rng.random() < 0.7:
+            spec['plan']['gate'] = {'match': '/fs:write', 'phase': 'before', 'policy': 'seeded'}
         cases.append(spec)
     # many small uploads from non-seekable streams (below the threshold: each is read completely into memory and sent as one
     # PutObject) with the requests held: their bodies count against the same in-memory limit as multipart parts
@@ -123,13 +138,16 @@ def evaluate(obs):
     v2, s2 = bounds.download_window_oracle(obs)
     v3, s3 = bounds.occupancy_oracle(obs)
     v3 = [v for v in v3 if v['mech'].get('stage') == 'io' and v['mech'].get('sym') == 'queue-overrun']
+    v4, s4 = bounds.pending_io_bytes_oracle(obs)
+    v3 = v3 + v4
     stats = {}
     stats.update(s1)
     stats.update(s2)
+    stats.update(s4)
     stats['max_outstanding_io'] = s3.get('max_outstanding_io', 0)
     stats['reached_io_queue'] = s3.get('reached_io_queue', 0)
     stats.pop('upload_bound', None)
-    nontrivial = (s1['stream_uploads'] > 0 and s1['max_buffered_upload_bytes'] > 0) or s2['nonseekable_ranged'] > 0
+    nontrivial = (s1['stream_uploads'] > 0 and s1['max_buffered_upload_bytes'] > 0) or s2['nonseekable_ranged'] > 0 or s4['io_write_tasks_sized'] > 0
     if obs.spec.get('real'):
         stats['real_family'] = 1
     summary = {'outcomes': e2e.default_outcomes(obs), 'buffered_peak': s1['max_buffered_upload_bytes'], 'bound': s1['upload_bound'],
